@@ -206,31 +206,48 @@ def run(ctx):
     g = C.cfg_of(init)
     option_params = {v[0] for v in DOC.values()}
     seen_fields = {}
-    for n in own_nodes(init.node):
-        if not (isinstance(n, ast.Assign) and len(n.targets) == 1 and isinstance(n.targets[0], ast.Subscript)):
-            continue
+    # the constructor and the helper methods it calls directly (the stores may have been moved into them)
+    scopes = [(init, None)]
+    for c in own_nodes(init.node):
+        if isinstance(c, ast.Call):
+            for h in C.targets_of(ctx, init, c):
+                if h is not init and h.cls is not None and init.cls in ctx.prog.mro(h.cls) + [h.cls] and h.name not in ("assemble", "write", "sort_meta") and (h, c) not in scopes \
+                        and not any(h is s_[0] for s_ in scopes):
+                    scopes.append((h, c))
+    stores_in = []
+    for F, callsite in scopes:
+        for n in own_nodes(F.node):
+            if isinstance(n, ast.Assign) and len(n.targets) == 1 and isinstance(n.targets[0], ast.Subscript):
+                stores_in.append((F, callsite, n))
+    for F, callsite, n in stores_in:
         t = n.targets[0]
         k = const_str(t.slice)
         if k is None or k not in FIELD_PARAMS:
             continue
         base = norm(t.value)
+        if F is not init and isinstance(t.value, ast.Name) and callsite is not None:
+            # the dictionary is a parameter of the helper: read the argument at the call in the constructor
+            bound = ctx.res.bind_args(F, callsite, F.cls is not None and not F.is_static)
+            if t.value.id in bound and not isinstance(bound[t.value.id], list):
+                base = norm(bound[t.value.id])
+        g = C.cfg_of(F)
         in_info = base.endswith("['info']")
         expected_info = k in ("comment", "private", "source", "piece length")
         used = set()
-        for x in walk_terms(flow.term(n.value, init)):
+        for x in walk_terms(flow.term(n.value, F)):
             if x[0] == "param" and x[1] == init.qual:
                 used.add(x[2])
-        node = C.stmt_node(ctx, init, n)
+        node = C.stmt_node(ctx, F, n)
         for b, lab in g.control_deps(node, normal_only=True):
             te = C.test_expr(b)
             if te is None:
                 continue
             for a in C.atoms_of(te):
                 for nm in ast.walk(a):
-                    if isinstance(nm, ast.Name) and nm.id in params:
+                    if isinstance(nm, ast.Name) and F is init and nm.id in params:
                         used.add(nm.id)
-                    if isinstance(nm, ast.Attribute) and isinstance(nm.value, ast.Name) and nm.value.id == init.self_name:
-                        for y in walk_terms(flow.term(nm, init)):
+                    if (isinstance(nm, ast.Attribute) and isinstance(nm.value, ast.Name) and nm.value.id == F.self_name) or (isinstance(nm, ast.Name) and F is not init):
+                        for y in walk_terms(flow.term(nm, F)):
                             if y[0] == "param" and y[1] == init.qual:
                                 used.add(y[2])
         used_opts = (used & option_params) - PATHISH
@@ -246,11 +263,16 @@ def run(ctx):
             problems.append("option(s) %s leak into field %r" % (sorted(used_opts - want), k))
         if want - used_opts:
             problems.append("field %r does not depend on its own option %s" % (k, sorted(want)))
-        ctx.decide("C20.3", init, not problems, "field %r is fed by keyword %s only" % (k, sorted(FIELD_PARAMS[k])),
+        ctx.decide("C20.3", F, not problems, "field %r is fed by keyword %s only" % (k, sorted(FIELD_PARAMS[k])),
                    "field %r: %s" % (k, "; ".join(problems)), n)
     for k in FIELD_PARAMS:
         if k not in seen_fields:
-            ctx.violated("C20.3", init, "documented field %r is never stored by MetaFile.__init__" % k, "field " + k)
+            elsewhere = [f_ for f_ in ctx.prog.functions.values() if f_.module is init.module for x in own_nodes(f_.node)
+                         if isinstance(x, ast.Subscript) and isinstance(x.ctx, ast.Store) and const_str(x.slice) == k]
+            if elsewhere:
+                ctx.undecided("C20.3", init, "documented field %r is not stored by the constructor or the helpers it calls directly (a store exists in %s, which is not followed)" % (k, elsewhere[0].qualname), "field " + k)
+            else:
+                ctx.violated("C20.3", init, "documented field %r is never stored by MetaFile.__init__" % k, "field " + k)
     # ---- C20.4 recovery arms
     recovery(ctx, init, rows)
     post_recovery_values(ctx, init, rows, flow)
@@ -266,30 +288,51 @@ def recovery(ctx, init, rows):
     positional = [r for r in rows if r.positional]
     if not positional or positional[0].nargs not in ("?", "*"):
         ctx.holds("C20.4", init, "the content path is a mandatory positional: it cannot be swallowed", "positional content", nontrivial=False)
+    # the recovery may live in the constructor or in a helper it calls with the options (which then returns the results)
+    scopes = [(init, {})]
+    for c in own_nodes(init.node):
+        if isinstance(c, ast.Call):
+            for h in C.targets_of(ctx, init, c):
+                if h is not init and h.module is init.module and not any(h is s_[0] for s_ in scopes):
+                    bound = ctx.res.bind_args(h, c, h.cls is not None and not h.is_static)
+                    ren = {p_: norm(a_) for p_, a_ in bound.items() if not isinstance(a_, list) and isinstance(a_, ast.AST)}
+                    scopes.append((h, ren))
     for dest in list_dests:
         found = False
-        for n in own_nodes(init.node):
-            if not isinstance(n, ast.If):
+        for F, ren in scopes:
+            # name of the option inside F
+            local = dest if F is init else next((p_ for p_, a_ in ren.items() if a_ == dest), None)
+            if local is None:
                 continue
-            last = None
-            for a in C.atoms_of(n.test):
-                if isinstance(a, ast.Call) and C.is_ext_call(ctx, a, init, ("os.path.exists", "os.path.isfile", "os.path.isdir")) and a.args:
-                    x = a.args[0]
-                    if isinstance(x, ast.Subscript) and isinstance(x.value, ast.Name) and x.value.id == dest and norm(x.slice) == "-1":
-                        last = x
-            if last is None:
-                continue
-            takes = drops = False
-            for st in n.body:
-                if isinstance(st, ast.Assign) and len(st.targets) == 1 and isinstance(st.targets[0], ast.Name):
-                    if st.targets[0].id in ("path", "content") and norm(st.value) == norm(last):
-                        takes = True
-                    if st.targets[0].id == dest and isinstance(st.value, ast.Subscript) and norm(st.value) == "%s[:-1]" % dest:
-                        drops = True
-            if takes and drops:
-                found = True
-                # the arm must be reachable only when no content path was given
-                ctx.holds("C20.4", init, "list option %r: a trailing existing path is taken as the content path and removed from the list" % dest, n.test)
+            for n in own_nodes(F.node):
+                if not isinstance(n, ast.If):
+                    continue
+                last = None
+                for a in C.atoms_of(n.test):
+                    if isinstance(a, ast.Call) and C.is_ext_call(ctx, a, F, ("os.path.exists", "os.path.isfile", "os.path.isdir")) and a.args:
+                        x = a.args[0]
+                        if isinstance(x, ast.Subscript) and isinstance(x.value, ast.Name) and x.value.id == local and norm(x.slice) == "-1":
+                            last = x
+                if last is None:
+                    continue
+                takes = drops = False
+                for st in n.body:
+                    if isinstance(st, ast.Assign) and len(st.targets) == 1 and isinstance(st.targets[0], ast.Name):
+                        if st.targets[0].id in ("path", "content") and norm(st.value) == norm(last):
+                            takes = True
+                        if st.targets[0].id == local and isinstance(st.value, ast.Subscript) and norm(st.value) == "%s[:-1]" % local:
+                            drops = True
+                    if isinstance(st, ast.Return) and st.value is not None:
+                        # return <last element>, ..., <list without it>, ...
+                        parts = st.value.elts if isinstance(st.value, ast.Tuple) else ([kw.value for kw in st.value.keywords] + list(st.value.args) if isinstance(st.value, ast.Call) else [st.value])
+                        if any(norm(x_) == norm(last) for x_ in parts):
+                            takes = True
+                        if any(norm(x_) == "%s[:-1]" % local for x_ in parts):
+                            drops = True
+                if takes and drops:
+                    found = True
+                    # the arm must be reachable only when no content path was given
+                    ctx.holds("C20.4", F, "list option %r: a trailing existing path is taken as the content path and removed from the list" % dest, n.test)
         if not found:
             ctx.violated("C20.4", init, "list-valued option %r has no recovery arm: `create --%s url <content>` swallows the content path" % (dest, dest.replace("_", "-")),
                          "recovery arm for " + dest)
